@@ -67,6 +67,26 @@ CLAIMED = {
    note="Trusted: Lean kernel + standard axioms; translator; harness; http.Request.UserAgent() = first header value",
    technique="Lean 4 decision-logic theorem + regenerated facts + differential",
    design='7/C15'),
+ 'C10': dict(
+   text=("Proof (Lean 4) of the panic-confinement clause: under Go's defer/recover rule, every per-connection goroutine that can run "
+         "user callbacks (serveConn incl. the HTTP/2 serve loop; runHandler) has a deferred function calling recover directly — "
+         "over the defer lists REGENERATED from the source (panic_confined, close_after_panic). Parser totality is proved in "
+         "C04/C18/C19. The rest of the quantifier (arbitrary bytes, aborts at byte offsets, I/O faults, injected panics) is explored "
+         "against the real stack, each scenario in a child process with a control client afterwards"),
+   note=("PARTIAL: absence of panics in the whole Go code is not proved. Trusted: Lean kernel + standard axioms; translator "
+         "(classification of deferred statements); harness; net/http's own recover on the HTTP/1.1 path. Found and fixed D3"),
+   technique="Lean 4 theorem over regenerated defer facts (Go recover rule) + child-process fault/panic/abort exploration",
+   design='7/C10'),
+ 'C16': dict(
+   text=("Proof (Lean 4): over the exit paths of serveConn REGENERATED from the source (each with its metric calls), every outcome's "
+         "path increments requests_total exactly once with the demanded labels (once_per_path), hence for any multiset of "
+         "connections completing in any order the counter vector equals the multiset of outcomes (count_eq, total); validated "
+         "against a real registry with batches of concurrent connections of every outcome"),
+   note=("Trusted: Lean kernel + standard axioms; translator (exit-path enumeration for the early-return shape; other shapes are "
+         "reported, never defaulted); harness. Partial: goroutine scheduling is sampled, the theorem covers the event model; "
+         "Prometheus counters are modelled as commutative increments"),
+   technique="Lean 4 theorem over regenerated control-flow facts + end-to-end differential against the metric registry",
+   design='7/C16'),
 }
 ALL = [f'C{i:02d}' for i in range(1, 21)]
 
